@@ -423,9 +423,10 @@ func init() {
 	}
 	register(&Prop{
 		ID: "C18", Level: "fault_enumeration", Quick: grid * 60, Thorough: grid * 2000,
-		Rule: fmt.Sprintf("the grid (command form x documented invalidity x corrupted file x record position first/middle/last) has %d points and is enumerated completely; for each point several generated valid base inputs (>= 3 records) are corrupted and executed under the baseline and seeded perturbed schedules (starve-reader/worker/caller, random, PCT) x threads x NumCPU x read chunking; non-trivial = the uncorrupted base input was accepted under the baseline schedule and the corruption applied; distinct = distinct (corrupted input, options)", grid),
-		Gen:   genC18,
-		Check: checkC18,
+		Rule:        fmt.Sprintf("the grid (command form x documented invalidity x corrupted file x record position first/middle/last) has %d points and is enumerated completely; for each point several generated valid base inputs (>= 3 records) are corrupted and executed under the baseline and seeded perturbed schedules (starve-reader/worker/caller, random, PCT) x threads x NumCPU x read chunking; non-trivial = the uncorrupted base input was accepted under the baseline schedule and the corruption applied; distinct = distinct (corrupted input, options)", grid),
+		NoShrink:    true,
+		Gen:         genC18,
+		Check:       checkC18,
 		Assumptions: []string{"exit status: a returned error becomes exit 1 in cmd/root.go, a panic is exit 2; both count as refusal", "catalogue restricted to conditions gofasta documents or checks (see DESIGN.md §7 C18)"},
 	})
 	exhaustiveNote["C18/quick"] = fmt.Sprintf("the %d-point grid of (form, corruption, file, position) is enumerated completely (60 base inputs per point)", grid)
